@@ -289,6 +289,17 @@ fn fixtures() -> Fx {
     .into_iter()
     .filter(|(n, _)| std::fs::metadata(format!("{}/{}", TZDB, n)).map(|m| m.is_file()).unwrap_or(false))
     .collect();
+    // decoys (seed R5-C18-a: a relative TZ name opened against the working directory before the zoneinfo
+    // directories): a readable zone file at the same RELATIVE path below the working directory, with an offset no
+    // real zone or rule here has; a relative name must never select it
+    let here = std::env::current_dir().unwrap();
+    for (n, _) in &real {
+        let p = here.join(n);
+        if let Some(d) = p.parent() {
+            let _ = std::fs::create_dir_all(d);
+        }
+        let _ = std::fs::write(&p, tzif_v2(4500, "DCY", "DCY-1:15"));
+    }
     let rules = vec![
         ("XYZ-3", 10800i64),
         ("ABC5", -18000 + 0),
@@ -1697,4 +1708,7 @@ pub fn run(c: &mut Ctx) {
     // second review G2: the system zone is not UTC, /etc/localtime changes: private mount namespace
     run_ns_children(c, &fx, ns_histories());
     let _ = std::fs::remove_dir_all(std::env::current_dir().unwrap().join("c18fx"));
+    for d in ["Asia", "America", "Australia", "Pacific"] {
+        let _ = std::fs::remove_dir_all(std::env::current_dir().unwrap().join(d));
+    }
 }
